@@ -41,7 +41,7 @@ def renderConn (x : Conn) : String :=
   let tx := match x.tx with | none => "-" | some q => toString q.length
   let ws := (x.watches.map fun (d, k) => s!"{d}/{toHex k}").toArray.qsort (· < ·) |>.toList
   let parked := match x.parked with | none => "-" | some p => p.kind ++ (if p.woken then "!" else "")
-  s!"c{x.id}" ++ "{" ++ s!"db={x.db},tx={tx},failed={x.txFailed},wn={x.watchNotified},watch={"+".intercalate ws},pubsub={x.pubsub},closed={x.closed},dead={x.dead},parked={parked}" ++ "}"
+  s!"c{x.id}" ++ "{" ++ s!"db={x.db},tx={tx},failed={x.txFailed},wn={x.watchNotified},watch={"+".intercalate ws},pubsub={x.pubsub},closed={x.closed},dead={x.dead},parked={parked}" ++ (if x.paused then ",paused" else "") ++ "}"
 
 def renderSnap (s : Sys) : String :=
   let dbs := (s.srv.dbs.zipIdx.filterMap fun (d, i) => renderDb s.srv.time i d)
@@ -64,7 +64,7 @@ def stepLine (s : Sys) (line : String) : Sys × String :=
       if !s.srv.connected then (s, "R C:ConnectionError")
       else
         let s := { s with clocks := parseClocks clocks, picks := parsePicks picks }
-        let (_, s') := (sendall { park := park == "1" } c.toNat! (encodeRequest fields)).run s
+        let (_, s') := (sendall { park := park == "1", async := park == "2" } c.toNat! (encodeRequest fields)).run s
         let extra := if !s'.clocks.isEmpty then " F:unused_clock_readings" else if !s'.picks.isEmpty then " F:unused_picks" else ""
         (s', renderOut s' ++ extra)
   | ["send", c, clocks, picks, data] =>
@@ -84,6 +84,15 @@ def stepLine (s : Sys) (line : String) : Sys × String :=
   | ["timeout", c] =>
     let (_, s') := (timeoutConn c.toNat!).run s
     (s', renderOut s')
+  | ["awake", c, clocks] =>
+    let s := { s with clocks := parseClocks clocks, picks := [] }
+    let (_, s') := (wakeConnAsync { async := true } c.toNat!).run s
+    (s', renderOut s' ++ (if !s'.clocks.isEmpty then " F:unused_clock_readings" else ""))
+  | ["atimeout", c, clocks] =>
+    let s := { s with clocks := parseClocks clocks, picks := [] }
+    let (_, s') := (timeoutConnAsync { async := true } c.toNat!).run s
+    (s', renderOut s' ++ (if !s'.clocks.isEmpty then " F:unused_clock_readings" else ""))
+  | ["gc", c] => let (_, s') := (gcConn c.toNat!).run s; (s', "ok")
   | ["glob", p, subj] =>
     match unhexTok p, unhexTok subj with
     | some p, some subj => (s, s!"G {Glob.globMatch p subj} {Glob.rglob p subj}")
